@@ -67,7 +67,12 @@ struct World {
     // precondition used by the *_invalid_prev / *_cached_invalid classes: the node itself has seen and rejected block X
     void EnsureKnownInvalid()
     {
-        if (known_invalid) return;
+        // (on a node shared by many tests the chain grows: a block that was marked invalid long ago ends up so far below the tip
+        //  that headers building on it fall under the anti-DoS work threshold and are ignored; keep it close to the tip)
+        if (known_invalid) {
+            CBlockIndex* old = s().Lookup(known_invalid->GetHash());
+            if (old && s().Tip()->nHeight - old->nHeight < 40) return;
+        }
         auto spec = s().OnTip(); spec.cb_value = GetBlockSubsidy(spec.height, s().consensus()) + 1;
         known_invalid = s().BuildBlock(spec);
         s().SubmitOwn(known_invalid);
